@@ -55,7 +55,7 @@ Definition result_eqb (r : result) (t : trace) (c : compl) : bool :=
 
 (* the model with exactly one of the legacy behaviours *)
 Definition only (k : nat) : variant :=
-  mkVariant (Nat.eqb k 1) (Nat.eqb k 2) (Nat.eqb k 3) (Nat.eqb k 4) (Nat.eqb k 5).
+  mkVariant (Nat.eqb k 1) (Nat.eqb k 2) (Nat.eqb k 3) (Nat.eqb k 4) (Nat.eqb k 5) (Nat.eqb k 6).
 
 Definition explains (V : variant) (c : case) : bool :=
   result_eqb (decode (mprog V FUEL (c_prog c))) (c_trace c) (c_compl c).
@@ -65,6 +65,8 @@ Definition explains (V : variant) (c : case) : bool :=
    11 .. 15  differs from the Spec exactly as the code with the legacy behaviour
              1 except-by-child-count, 2 signals offered to except, 3 condition loop keeps
              break, 4 finally result dropped, 5 range from==to empty   would
+   17 differs from the Spec exactly as an ifRuntime would in which a later guard overwrites
+      the error of an earlier guard
    16 differs from the Spec exactly as the unchanged code would
    3  agrees with the Spec but not with the model of the repaired code (cannot happen: theorem)
    9  the Spec runs out of fuel on this program (not comparable) *)
@@ -79,6 +81,7 @@ Definition verdict (c : case) : nat :=
     else if explains (only 3) c then 13
     else if explains (only 4) c then 14
     else if explains (only 5) c then 15
+    else if explains (only 6) c then 17
     else if explains unchanged c then 16
     else if negb (trace_eqb t (c_trace c)) then 1
     else 2
